@@ -233,7 +233,7 @@ class Session:
             for v in versions:
                 imgs = tuple((pol, sc, n + (v if i == 0 else 0), p) for i, (pol, sc, n, p) in enumerate(base))
                 self.built[f"{l}{v}"] = product.build_product(level=level, images=imgs, seed=seed * 16 + li * 4 + v + 1,
-                                                           ctx={"creation_datetime": f"20200301120{li}{v}000"}, drift=(0, 1, 2, 3, 4)[seed % 5])
+                                                           ctx={"creation_datetime": f"20200301120{li}{v}000"}, drift=(0, 1, 2, 3, 4)[seed % 5], common_descriptor=bool(seed % 2))
         b0 = self.built[f"{locs[0]}{versions[0]}"]
         self.img = {"a": 0, "b": 1}
         self.names = {m: b0.images[i]["name"] for m, i in self.img.items()}
